@@ -253,7 +253,9 @@ pub fn run_c14(e: &Engine) -> i32 {
                         }
                         states += 1;
                         for (query, run) in [(false, entry.run_json.unwrap()), (true, entry.run_query.unwrap())] {
+                            begin(&Script::keep_going());
                             let r = std::panic::catch_unwind(|| run(doc));
+                            let _ = end();
                             execs += 1;
                             let Ok(r) = r else { continue };
                             let err: Option<String> = match (&r, first) {
